@@ -28,7 +28,7 @@ def run_decide(inputs, wd, name="decide"):
         for x in inputs:
             f.write(json.dumps(x, separators=(",", ":")) + "\n")
     p = subprocess.run([runner.HARNESS_BIN, "decide", ip, op], stdout=subprocess.DEVNULL, stderr=subprocess.PIPE,
-                       text=True, timeout=3600)
+                       text=True, timeout=3600, env=runner.harness_env())
     if p.returncode != 0:
         raise runner.ToolError("harness decide failed:\n" + p.stderr[-4000:])
     return op
